@@ -28,6 +28,9 @@ type Bubble struct {
 	wake    chan struct{}
 	Choose  func(label string, n int) int
 	OnStep  func() // step budget
+	// OnQuiescent is called by the root loop whenever every goroutine is parked or blocked
+	// (the consistent moments at which invariants are evaluated).
+	OnQuiescent func()
 	Steps   int
 	Preempt int // steps at which a choice among >1 alternatives was made
 	killed  bool
@@ -62,7 +65,7 @@ func InBubble() bool { return inBubble }
 func Blocked(what string) {}
 
 func NewBubble(choose func(label string, n int) int) *Bubble {
-	return &Bubble{gids: map[uint64]int{}, names: map[int]string{}, live: map[int]string{}, wake: make(chan struct{}, 1),
+	return &Bubble{gids: map[uint64]int{}, names: map[int]string{}, live: map[int]string{},
 		Choose: choose, Sites: map[string]int{}}
 }
 
@@ -83,18 +86,16 @@ func (b *Bubble) unregister(id int) {
 	b.mu.Unlock()
 }
 
+// self returns the logical id of the calling goroutine, or -1 if it was not spawned through
+// vsim.Go (the root of the bubble, library workers): such goroutines never park.
 func (b *Bubble) self() int {
 	g := goid()
 	b.mu.Lock()
 	id, ok := b.gids[g]
-	if !ok {
-		// a goroutine not spawned through vsim.Go (library worker): register on first sight
-		id = b.nextID
-		b.nextID++
-		b.gids[g] = id
-		b.names[id] = "unregistered"
-	}
 	b.mu.Unlock()
+	if !ok {
+		return -1
+	}
 	return id
 }
 
@@ -121,10 +122,14 @@ func (b *Bubble) Go(site string, f func()) {
 
 // Yield parks the calling goroutine until the root loop resumes it.
 func (b *Bubble) Yield(site string) {
+	id := b.self()
+	if id < 0 {
+		return
+	}
 	if b.killed {
 		panic(killSentinel{})
 	}
-	p := &parkedG{id: b.self(), site: site, ch: make(chan bool)}
+	p := &parkedG{id: id, site: site, ch: make(chan bool)}
 	b.mu.Lock()
 	b.parked = append(b.parked, p)
 	b.mu.Unlock()
@@ -167,6 +172,9 @@ func (b *Bubble) RunUntil(done func() bool, horizon time.Duration, maxSteps int,
 	deadline := time.Now().Add(horizon)
 	for steps := 0; ; steps++ {
 		synctest.Wait()
+		if b.OnQuiescent != nil {
+			b.OnQuiescent()
+		}
 		if done() {
 			return Done
 		}
@@ -269,6 +277,8 @@ func RunBubble(t *testing.T, b *Bubble, body func()) (leaked bool, err interface
 	}()
 	E, inBubble = b, true
 	synctest.Test(t, func(t *testing.T) {
+		// channels the bubble blocks on must be created inside it (durable blocking)
+		b.wake = make(chan struct{}, 1)
 		body()
 	})
 	return
